@@ -193,6 +193,14 @@ def build():
         [5, None, {'expect': 5}, ['[1,2]'], {'expect': '[1,2]', 'grade_decimal': 2}],
         norm=canon_answers(fexp), name='answers (matrix formulas)')
 
+    # dictionary answers with an EXPLICIT ok: documented rule -- ok is ignored unless grade_decimal == 1
+    def ok_grade(expect):
+        return [{'expect': expect, 'ok': ok, 'grade_decimal': g}
+                for ok in (True, False, 'partial', 'computed') for g in (0, 0.0, 0.5, 1, 1.0)]
+    STR_ANSWERS.good += ok_grade('cat')
+    FORMULA_ANSWERS.good += ok_grade('x+1')
+    MATRIX_ANSWERS.good += ok_grade('[1,2]')
+
     sg = M.StringGrader()
     fg = M.FormulaGrader()
     ng = M.NumericalGrader()
@@ -302,6 +310,7 @@ def build():
         'sample_from': Opt({}, EMPTY_DICT),
         'failable_evals': Opt(0, LIT_ZERO),
     })
+    num_opts['answers'].dom.good += ok_grade('3')
     T['NumericalGrader'] = Table(M.NumericalGrader, num_opts, rules=math_rules(M.NumericalGrader), is_grader=True)
 
     mat_opts = dict(formula_opts)
@@ -337,6 +346,7 @@ def build():
          [('a', 'b'), {'expect': ('c', 'd'), 'msg': 'm'}], (['a', 'b'],)],
         ['cat', 5, None, ['cat'], (['a', 'b'], ['c']), ('a', 'b'), {'a': 1}, [5, 'a'], ['a', {'expect': 5}]],
         norm=list_answers_norm(canon_answers(lambda x: x)), name='list of answers / tuple of lists')
+    LIST_ANSWERS.good += [[a, 'b'] for a in ok_grade('a')]
     SUBGRADERS = Dom([sg, M.StringGrader(case_sensitive=False), fg], ['a', None, 5, ['a'], [sg, 5], M.RealInterval()],
                      name='grader or list of graders')
 
@@ -383,6 +393,8 @@ def build():
         [5, None, [], (['a', 'b'], ['c']), {'expect': 5}, ['a', 5], {'expect': ['a', 'b'], 'grade_decimal': 2},
          {'expect': (['a', 'b'], ['c'])}],
         norm=sl_norm, name='list answers in one box')
+
+    SL_ANSWERS.good += ok_grade(['a', 'b'])
 
     def sl_rules(cfg, full):
         seen = [full['delimiter']]
